@@ -27,6 +27,10 @@ type Obligation struct {
 	Note   string
 	Trivial bool
 	Pos    string
+	group      *GroupSpec
+	knownClass *KnownFinding
+	excluded   []*KnownFinding
+	confirmed  bool
 }
 
 func isHarnessRT(fn *ssa.Function) bool {
@@ -186,10 +190,19 @@ func (e *Exec) patternIntrinsicHarness(fn *ssa.Function, name string) Intrinsic 
 				e.Merge = val != 0
 			case "branch_timeout_ms":
 				e.BranchTimeoutMs = val
+			case "bitlen_dense":
+				e.BitLenDense = val
 			default:
 				unsupported("unknown vConfig key %s", key)
 			}
 			return ret1(st, nil)
+		}
+	case "vTier":
+		return func(e *Exec, st *State, fn *ssa.Function, args []Value, depth int) []Outcome {
+			if e.Tier == "thorough" {
+				return ret1(st, e.TS.Int64(1))
+			}
+			return ret1(st, e.TS.Int64(0))
 		}
 	case "vBigEq", "vBigLe", "vBigLt":
 		return func(e *Exec, st *State, fn *ssa.Function, args []Value, depth int) []Outcome {
